@@ -153,6 +153,10 @@ class Pairing:
         if not good:
             return False, None
         ok = _unavoidable(fn, bb, [pb for pb, _k in good], bypass=bypass)
+        if not ok:
+            # the same time pushed on the heap just BEFORE the write (the two statements in the other order): a push of the
+            # matching value that dominates the site pairs it as well
+            ok = any(pb != bb and fn.dominates(pb, bb) for pb, _k in good)
         return ok, sorted({k for _pb, k in good})
 
     def check_site(self, fn, bb, idx, field, value, what, depth=0, origin_desc=None):
